@@ -408,7 +408,7 @@ def run(ctx):
                                "(1 sub x 1 ses x 2 tasks, <= 2 sidecars, no/all decoys)"))
     else:
         jobs.append(dict(module="MC_Bids", cfg="MC_Bids_thorough.cfg", workers=10, coverage=True, timeout=2400, expect=None,
-                         label="design: all invariants, shapes with <= 4 events files, <= 2 sidecars"))
+                         label="design: all invariants, all shapes with <= 2 events files, <= 2 sidecars, no/all decoys"))
         jobs.append(dict(module="MC_Bids", cfg="MC_Bids_three.cfg", workers=4, coverage=True, timeout=2400, expect=None,
                          label="design: all invariants, 1 sub x 1 ses x 1 task x 1 run, <= 3 sidecars (three-level chains)"))
     for cfg, inv, what in SENS:
@@ -418,7 +418,7 @@ def run(ctx):
     jobs.append(dict(module="MC_Bids", cfg="MC_Bids_gen.cfg" if quick else "MC_Bids_gen_thorough.cfg", workers=1, timeout=2400,
                      expect=None, label="tree generation (exhaustive) with expected chains and merges"))
     jobs.append(dict(module="MC_Bids", cfg="MC_Bids_sim.cfg", workers=1, mode="simulate",
-                     simulate="num=%d" % (160 if quick else 8000), depth=5, seed=ctx.seed + 16, timeout=2400, expect=None,
+                     simulate="num=%d" % (160 if quick else 2500), depth=5, seed=ctx.seed + 16, timeout=2400, expect=None,
                      extra=["-generate"],     # random behaviours, invariants (Emit) evaluated on the behaviour's states only
                      label="tree generation (simulate, all shapes, <= 4 sidecars)"))
     tj = _TlcJobs(ctx, jobs)       # design / sensitivity runs keep running while the generated trees are replayed
